@@ -99,6 +99,7 @@ def gen(seed, tier):
         'latency_ms': rng.choice([0, 0, 0, 50, 700, 3000]) if baker else rng.choice([0, 0, 20]),
         'chain_name': rng.choice(['TEZOS_MAINNET', 'TEZOS_MAINNET', 'SANDBOXED_TEZOS']),
         'prebake': rng.choice([1, 2, 5]),
+        'watch_only': rng.random() < 0.08,
     }
     fault_free = rng.random() < 0.35
     enabled_faults = [f for f in FAULT_KINDS if rng.random() < 0.5]
@@ -134,6 +135,9 @@ def gen(seed, tier):
             if op == 'new':
                 st['contents'] = gen_contents(rng, n)
                 st['via'] = rng.choice(['chain', 'chain', 'bulk'])
+                if n == 1 and rng.random() < 0.25:
+                    st['contents'] = [{'kind': 'contract_call', 'arg': rng.choice([0, 5, 10**9]), 'entrypoint': rng.choice(['increment', 'decrement'])}]
+                    st['via'] = 'call'
             if frm:
                 st['from'] = frm
             if op in ('inject', 'send') and baker and rng.random() < 0.35:
@@ -328,7 +332,7 @@ def simplify(scn):
             yield c
     cfg = scn['cfg']
     defaults = {'key': 'tz1', 'counter0': 10, 'baker': False, 'latency_ms': 0, 'chain_name': 'TEZOS_MAINNET', 'prebake': 1, 'bake_jitter_ms': [],
-                'block_delay_s': 8, 'pending_pairs': False}
+                'block_delay_s': 8, 'pending_pairs': False, 'watch_only': False}
     for k, v in defaults.items():
         if cfg.get(k) != v:
             c = cp()
